@@ -125,15 +125,14 @@ func resolveLockRoles(c *Ctx) *lockRoles {
 			if !ok || len(call.Call.Args) != 2 {
 				return
 			}
-			name := ir.CalleeFullName(call)
-			if name != "(*sync/atomic.Value).Store" && name != "(*sync/atomic.Value).CompareAndSwap" && name != "(*sync/atomic.Value).Swap" {
+			if m := slotMethodVV(call); m != "Store" && m != "CompareAndSwap" && m != "Swap" { // atomic.Value or atomic.Pointer[T] (v_lock_v.go)
 				return
 			}
 			fa, isFA := call.Call.Args[0].(*ssa.FieldAddr)
 			if !isFA {
 				return
 			}
-			for _, o := range ir.Origins(call.Call.Args[len(call.Call.Args)-1]) {
+			for _, o := range storedTimersVV(call.Call.Args[len(call.Call.Args)-1]) {
 				if tc, isTC := o.(*ssa.Call); isTC && strings.HasSuffix(ir.CalleeFullName(tc), "/timeout.Call") {
 					holdsTimer[ir.FieldOf(fa)] = true
 				}
@@ -141,7 +140,7 @@ func resolveLockRoles(c *Ctx) *lockRoles {
 		})
 	}
 	r.timerF = c.oneFieldDeep("locker.timer", r.locker, func(f *types.Var) bool {
-		return ir.IsNamed(f.Type(), "sync/atomic", "Value") && (len(holdsTimer) == 0 || holdsTimer[f])
+		return isSlotTypeVV(f.Type()) && (len(holdsTimer) == 0 || holdsTimer[f])
 	})
 	lm := func(name string) *ssa.Function { return c.RequireFn(c.P.MethodOf(r.locker, name), "locker."+name) }
 	r.tryLock, r.lock, r.lockCtx, r.unlock = lm("TryLock"), lm("Lock"), lm("LockWithCtx"), lm("Unlock")
@@ -1379,14 +1378,13 @@ func (c *Ctx) armOnAcquire(r *lockRoles, rule string, withStored bool) {
 			}
 			stored := func(x ssa.Instruction) bool {
 				call, ok := x.(*ssa.Call)
-				if !ok || ir.CalleeFullName(call) != "(*sync/atomic.Value).Store" {
+				if !ok || slotMethodVV(call) != "Store" {
 					return false
 				}
 				if _, isSlot := fieldAddrOf(call.Call.Args[0], r.timerF); !isSlot {
 					return false
 				}
-				tc, isTC := ir.Resolve(call.Call.Args[1]).(*ssa.Call)
-				return isTC && isTimeoutCall(tc) != nil
+				return timeoutCallOfVV(call.Call.Args[1]) != nil // the timer itself, or the box it was put into
 			}
 			success := func(x ssa.Instruction) bool {
 				ret, ok := x.(*ssa.Return)
